@@ -239,6 +239,8 @@ def run_convert(acc, spec):
     import robotpy_ext.misc.precise_delay as pd
     e = simenv.env()
     proxy = e.proxy
+    graveyard = []
+    import gc
     for n in range(spec["lo"] + spec["offset"], spec["hi"] + 1, spec["stride"]):
         t0 = e.now()
         try:
@@ -246,13 +248,20 @@ def run_convert(acc, spec):
         except Exception as ex:  # noqa
             acc.violation("C16/raised", f"NotifierDelay({n}/1e6) raised {ex!r}", {"mode": "convert1", "n": n}, {})
             continue
+        if len(graveyard) >= 3:
+            # freed-but-still-referenced delays are collected while this newer one is in use: its notifier must survive
+            del graveyard[:]          # reference counting runs their finalizers right here
         al = proxy.alarms.get(proxy.last_init)
         d.free()
+        graveyard.append(d)
         acc.evaluations += 1
         acc.checks += 1
         acc.ev("conversion-period-checked")
         acc.nontrivial.add(n)
-        if al != t0 + n:
+        if al is None:
+            acc.violation("C16/alarm-cancelled", f"NotifierDelay({n}/1e6): the alarm it programmed at creation was cancelled before it was freed "
+                          "(another object's release stopped/cleaned this notifier's handle)", {"mode": "convert1", "n": n}, {})
+        elif al != t0 + n:
             acc.violation("C16/period-conversion", f"NotifierDelay({n}/1e6) created at {t0} programs its first alarm at {al}: "
                           f"period {al - t0} us instead of {n} us, so wait() #k returns {n - (al - t0)}*k us before t0+k*P",
                           {"mode": "convert1", "n": n}, {})
@@ -296,7 +305,9 @@ def replay(pid, case):
     simenv.env()
     acc = Acc()
     if case["mode"] == "convert1":
-        run_convert(acc, {"lo": case["n"], "hi": case["n"], "stride": 1, "offset": 0})
+        # a few constructions before it as well: what an earlier, already freed delay does when it is collected is part
+        # of the history of this one
+        run_convert(acc, {"lo": max(1000, case["n"] - 9), "hi": case["n"], "stride": 1, "offset": 0})
     else:
         run_threaded(acc, case)
     return acc.violations[0] if acc.violations else None
